@@ -1,6 +1,1188 @@
-//! Property C20: correspondence and oracle (stub: nothing built yet).
-use crate::report::Report;
+//! Property C20: file and rule filters select exactly the matching files.
+//!
+//! Part A (glob matrix): the real `FilterPattern::matches` (hook `filter_pattern_matches`) against the
+//!   Lean reference matcher `C20.Spec.glob` on an exhaustive pattern x path grid of the documented subset.
+//! Part B (metamorphic): real `darklua_core::process` on memory resources with filters at the top level
+//!   and/or on rules of a multi-rule pipeline. Reference outputs are real runs of the *unfiltered*
+//!   configuration containing only a subset of the rules; every subset gives a different output on the
+//!   probe files, so the output of a filtered run names the set of rules that really ran on each file.
+//!   * correspondence: that set == `C20.processFile` (the Lean model the theorems are about) evaluated
+//!     with the real matcher's match matrix;
+//!   * oracle: that set == the property statement evaluated with the reference matcher's matrix.
+use crate::model::{hex, Model};
+use crate::report::{Report, Violation};
+use crate::rng::Rng;
+use darklua_core::verif_hooks::{filter_pattern_matches, filter_pattern_matches_many};
+use darklua_core::{process, Configuration, Options, Resources};
+use serde::{Deserialize, Serialize};
+use serde_json::{json, Value};
+use std::collections::{BTreeMap, BTreeSet};
+use std::path::Path;
 
-pub fn run(report: &mut Report, _replay: Option<&str>) {
-    report.notes.push("C20: no harness yet".to_owned());
+// ---------------------------------------------------------------------------------------------
+// Part A: glob matrix
+// ---------------------------------------------------------------------------------------------
+
+fn sequences(comps: &[&str], max_depth: usize) -> Vec<String> {
+    let mut out: Vec<String> = Vec::new();
+    let mut level: Vec<String> = vec![String::new()];
+    for _ in 0..max_depth {
+        let mut next = Vec::new();
+        for prefix in &level {
+            for c in comps {
+                let s = if prefix.is_empty() { (*c).to_owned() } else { format!("{}/{}", prefix, c) };
+                next.push(s);
+            }
+        }
+        out.extend(next.iter().cloned());
+        level = next;
+    }
+    out
+}
+
+struct GlobMismatch {
+    pattern: String,
+    path: Option<String>,
+    real: String,
+    spec: String,
+}
+
+struct GlobStats {
+    compared: u64,
+    ok_patterns: u64,
+    invalid_patterns: u64,
+    outside_patterns: u64,
+    matches_true: u64,
+    mismatches: Vec<GlobMismatch>,
+}
+
+fn real_match(pattern: &str, path: &str) -> Result<bool, String> {
+    match std::panic::catch_unwind(|| filter_pattern_matches(pattern, Path::new(path))) {
+        Ok(r) => r,
+        Err(_) => Err("panic".to_owned()),
+    }
+}
+
+/// one pattern, compiled once, against all paths
+fn real_row(pattern: &str, paths: &[String]) -> Result<Vec<bool>, String> {
+    let refs: Vec<&Path> = paths.iter().map(|p| Path::new(p.as_str())).collect();
+    match std::panic::catch_unwind(|| filter_pattern_matches_many(pattern, &refs)) {
+        Ok(r) => r,
+        Err(_) => Err("panic".to_owned()),
+    }
+}
+
+fn glob_chunk(patterns: &[String], paths: &[String]) -> GlobStats {
+    let mut model = Model::spawn();
+    let mut stats = GlobStats {
+        compared: 0,
+        ok_patterns: 0,
+        invalid_patterns: 0,
+        outside_patterns: 0,
+        matches_true: 0,
+        mismatches: Vec::new(),
+    };
+    let hex_paths: Vec<String> = paths.iter().map(|p| hex(p.as_bytes())).collect();
+    let joined = hex_paths.join(" ");
+    let requests: Vec<String> = patterns
+        .iter()
+        .map(|p| format!("c20.globrow {} {}", hex(p.as_bytes()), joined))
+        .collect();
+    let answers = model.ask_batch(&requests);
+    for (pattern, answer) in patterns.iter().zip(answers) {
+        match answer.as_str() {
+            "outside" => {
+                stats.outside_patterns += 1;
+            }
+            "invalid" => {
+                stats.invalid_patterns += 1;
+                // the pattern language rejects it: the real constructor must return an error
+                if let Ok(b) = real_match(pattern, "a") {
+                    stats.mismatches.push(GlobMismatch {
+                        pattern: pattern.clone(),
+                        path: None,
+                        real: format!("accepted (matches `a`: {})", b),
+                        spec: "invalid".to_owned(),
+                    });
+                }
+            }
+            row if row.len() == paths.len() && row.chars().all(|c| "01-".contains(c)) => {
+                stats.ok_patterns += 1;
+                let real_all = real_row(pattern, paths);
+                for (i, (path, c)) in paths.iter().zip(row.chars()).enumerate() {
+                    if c == '-' {
+                        continue;
+                    }
+                    stats.compared += 1;
+                    let real = match &real_all {
+                        Ok(v) => Ok(v[i]),
+                        Err(e) => Err(e.clone()),
+                    };
+                    let spec = c == '1';
+                    if spec {
+                        stats.matches_true += 1;
+                    }
+                    if real != Ok(spec) && stats.mismatches.len() < 20 {
+                        stats.mismatches.push(GlobMismatch {
+                            pattern: pattern.clone(),
+                            path: Some(path.clone()),
+                            real: format!("{:?}", real),
+                            spec: spec.to_string(),
+                        });
+                    }
+                }
+            }
+            other => {
+                stats.mismatches.push(GlobMismatch {
+                    pattern: pattern.clone(),
+                    path: None,
+                    real: "-".to_owned(),
+                    spec: format!("driver answered `{}`", other),
+                });
+            }
+        }
+    }
+    stats
+}
+
+fn part_a(report: &mut Report) {
+    let thorough = report.is_thorough();
+    let pat_comps: Vec<&str> = if thorough {
+        vec!["a", "b", "*", "?", "**", "a*", "*b", "?b", "*.lua", "a.lua", "a?", "*a*", "??", "b.*"]
+    } else {
+        vec!["a", "b", "*", "?", "**", "a*", "*b", "?b", "*.lua", "a.lua", "a?"]
+    };
+    let path_comps: Vec<&str> = if thorough {
+        vec!["a", "b", "ab", "ba", "a.lua", "b.lua", "aab", ".lua"]
+    } else {
+        vec!["a", "b", "ab", "ba", "a.lua", "b.lua"]
+    };
+    let mut patterns = sequences(&pat_comps, 3);
+    if thorough {
+        // depth 4 over a reduced alphabet
+        let deep: Vec<String> = sequences(&["a", "*", "**", "?b", "*.lua", "b"], 4)
+            .into_iter()
+            .filter(|p| p.matches('/').count() == 3)
+            .collect();
+        patterns.extend(deep);
+    }
+    // outside the subset / malformed stream: must be classified, never silently compared
+    for extra in [
+        "a**", "**a", "***", "a/**b", "**/**", "a//b", "a/**/**/b", "[ab]", "{a,b}", "a/[!a]", "<a:1,>",
+        "/a", "a/", "", "/**", "a\\*", "(a)", "a|b", "$", "a/$", "!a", "~", "a,b", "a:b", "a b/*",
+    ] {
+        patterns.push(extra.to_owned());
+    }
+    let paths = sequences(&path_comps, if thorough { 4 } else { 3 });
+    let n_threads = 16usize;
+    let chunk = (patterns.len() + n_threads - 1) / n_threads;
+    let results: Vec<GlobStats> = std::thread::scope(|s| {
+        let handles: Vec<_> = patterns
+            .chunks(chunk.max(1))
+            .map(|c| {
+                let paths = &paths;
+                s.spawn(move || glob_chunk(c, paths))
+            })
+            .collect();
+        handles.into_iter().map(|h| h.join().expect("glob thread")).collect()
+    });
+    let mut compared = 0;
+    for st in results {
+        compared += st.compared;
+        report.count("glob_pairs_compared", st.compared);
+        report.count("glob_pairs_matching", st.matches_true);
+        report.count("glob_patterns_ok", st.ok_patterns);
+        report.count("glob_patterns_invalid", st.invalid_patterns);
+        report.count("glob_patterns_outside_subset", st.outside_patterns);
+        for m in st.mismatches {
+            report.violation(Violation {
+                kind: "oracle".to_owned(),
+                check: "glob-matrix".to_owned(),
+                what: format!(
+                    "FilterPattern `{}` on path {:?}: real {} but the documented meaning is {}",
+                    m.pattern, m.path, m.real, m.spec
+                ),
+                input: json!({"kind": "glob", "pattern": m.pattern, "path": m.path}),
+                failing_input_found: true,
+            });
+        }
+    }
+    report.evaluations += compared;
+    report.hist("part", "glob-matrix pairs");
+    report.exhaustive.insert(
+        format!(
+            "glob matrix: all patterns of <= 3 components over {} component shapes x all paths of <= {} components over {} names",
+            pat_comps.len(),
+            if thorough { 4 } else { 3 },
+            path_comps.len()
+        ),
+        true,
+    );
+}
+
+// ---------------------------------------------------------------------------------------------
+// Part B: metamorphic runs of the real `process`
+// ---------------------------------------------------------------------------------------------
+
+#[derive(Clone, Debug, Serialize, Deserialize, PartialEq, Eq, Hash)]
+pub enum Pats {
+    None,
+    One(String),
+    Many(Vec<String>),
+}
+
+impl Pats {
+    fn list(&self) -> Vec<String> {
+        match self {
+            Pats::None => vec![],
+            Pats::One(s) => vec![s.clone()],
+            Pats::Many(v) => v.clone(),
+        }
+    }
+    fn json(&self) -> Option<Value> {
+        match self {
+            Pats::None => None,
+            Pats::One(s) => Some(json!(s)),
+            Pats::Many(v) => Some(json!(v)),
+        }
+    }
+    fn form(&self) -> &'static str {
+        match self {
+            Pats::None => "absent",
+            Pats::One(_) => "string",
+            Pats::Many(v) if v.is_empty() => "empty-array",
+            Pats::Many(v) if v.len() == 1 => "array-1",
+            Pats::Many(_) => "array-n",
+        }
+    }
+}
+
+struct Tree {
+    name: &'static str,
+    input: &'static str,
+    /// all files written to the resources
+    files: &'static [&'static str],
+    /// the files `process` is expected to pick up, as (source path, path relative to the input)
+    work: &'static [(&'static str, &'static str)],
+    pool: &'static [&'static str],
+}
+
+const STATIC_TREES: &[Tree] = &[
+    Tree {
+        name: "root",
+        input: "",
+        files: &["main.lua", "src/a.lua", "src/b.lua", "src/sub/a.lua", "src/sub/deep/c.luau", "lib/a.lua", "notes.txt"],
+        work: &[
+            ("main.lua", "main.lua"),
+            ("src/a.lua", "src/a.lua"),
+            ("src/b.lua", "src/b.lua"),
+            ("src/sub/a.lua", "src/sub/a.lua"),
+            ("src/sub/deep/c.luau", "src/sub/deep/c.luau"),
+            ("lib/a.lua", "lib/a.lua"),
+        ],
+        pool: &[
+            "**", "**/*.lua", "*.lua", "*", "src/**", "src/*", "src/*.lua", "src/**/*.lua", "**/a.lua", "src/sub/**",
+            "**/sub/**", "lib/a.lua", "src/?.lua", "main.lua", "*/a.lua", "**/deep/*", "nomatch/**", "s*/**/c.luau",
+            "out/**", "./src/**", "src/sub", "**/*.luau", "src/**/a.lua", "?????lua", "**/?.lua",
+            // outside the documented subset: correspondence only
+            "src/{a,b}.lua", "**/[ab].lua",
+        ],
+    },
+    Tree {
+        name: "dir",
+        input: "./src/../src/",
+        files: &["src/a.lua", "src/x/a.lua", "src/x/y/b.lua", "src/x/y/a b.lua", "other/a.lua"],
+        work: &[
+            ("src/a.lua", "a.lua"),
+            ("src/x/a.lua", "x/a.lua"),
+            ("src/x/y/b.lua", "x/y/b.lua"),
+            ("src/x/y/a b.lua", "x/y/a b.lua"),
+        ],
+        pool: &[
+            "**", "src/**", "a.lua", "*.lua", "src/*.lua", "**/a.lua", "src/x/**", "x/**", "**/y/*", "src/*/a.lua",
+            "src/**/b.lua", "./src/**", "src/../src/**", "**/x/**/b.lua", "src/x/y/a b.lua", "**/a*", "src/*/*/*",
+            "src/x/?/b.lua", "**/a ?.lua", "other/**",
+        ],
+    },
+    Tree {
+        name: "single-file",
+        input: "src/x/a.lua",
+        files: &["src/a.lua", "src/x/a.lua"],
+        work: &[("src/x/a.lua", "a.lua")],
+        pool: &["**", "a.lua", "src/x/a.lua", "**/a.lua", "src/*", "src/**", "x/**", "src/x/*", "*/*/*", "*/*"],
+    },
+];
+
+/// owned form (static trees + seeded random trees)
+struct TreeO {
+    name: String,
+    input: String,
+    files: Vec<String>,
+    work: Vec<(String, String)>,
+    pool: Vec<String>,
+}
+
+static ALL_TREES: std::sync::OnceLock<Vec<TreeO>> = std::sync::OnceLock::new();
+
+fn trees() -> &'static [TreeO] {
+    ALL_TREES.get().expect("trees not initialised")
+}
+
+/// a random tree of Lua files below the root (input ""), with a pattern pool derived from its paths
+fn random_tree(rng: &mut Rng, index: usize) -> TreeO {
+    let dirs = ["src", "lib", "a", "b", "x y", "deep"];
+    let names = ["a.lua", "b.lua", "init.lua", "c.luau", "ab.lua", "a b.lua"];
+    let mut files: Vec<String> = Vec::new();
+    let n = 4 + rng.below(4);
+    let mut guard = 0;
+    while files.len() < n && guard < 100 {
+        guard += 1;
+        let depth = rng.below(4);
+        let mut parts: Vec<&str> = (0..depth).map(|_| *rng.pick(&dirs)).collect();
+        parts.push(*rng.pick(&names));
+        let path = parts.join("/");
+        // a file cannot also be a directory of another file
+        if files.iter().any(|f| *f == path || f.starts_with(&format!("{}/", path)) || path.starts_with(&format!("{}/", f))) {
+            continue;
+        }
+        files.push(path);
+    }
+    files.sort();
+    let mut pool: Vec<String> = vec!["**".into(), "*".into(), "*.lua".into(), "**/*.lua".into(), "nomatch/**".into(), "**/*.luau".into()];
+    for f in &files {
+        let comps: Vec<&str> = f.split('/').collect();
+        let base = comps[comps.len() - 1];
+        let mut candidates = vec![f.clone(), format!("**/{}", base)];
+        if comps.len() > 1 {
+            let dir = comps[..comps.len() - 1].join("/");
+            candidates.push(format!("{}/**", dir));
+            candidates.push(format!("{}/*", dir));
+            candidates.push(format!("{}/**/{}", comps[0], base));
+            candidates.push(format!("{}/**", comps[0]));
+            let mut starred = comps.clone();
+            let i = rng.below(comps.len());
+            starred[i] = "*";
+            candidates.push(starred.join("/"));
+            candidates.push(format!("**/{}/**", comps[comps.len() - 2]));
+        }
+        let stem_q: String = base.chars().enumerate().map(|(i, c)| if i == 0 { '?' } else { c }).collect();
+        candidates.push(format!("**/{}", stem_q));
+        for c in candidates {
+            if !pool.contains(&c) && pool.len() < 28 {
+                pool.push(c);
+            }
+        }
+    }
+    let work = files.iter().map(|f| (f.clone(), f.clone())).collect();
+    let mut all_files = files.clone();
+    all_files.push("readme.md".into());
+    TreeO { name: format!("random-{}", index), input: String::new(), files: all_files, work, pool }
+}
+
+fn init_trees(seed: u64, n_random: usize) {
+    let mut all: Vec<TreeO> = STATIC_TREES
+        .iter()
+        .map(|t| TreeO {
+            name: t.name.to_owned(),
+            input: t.input.to_owned(),
+            files: t.files.iter().map(|x| x.to_string()).collect(),
+            work: t.work.iter().map(|(a, b)| (a.to_string(), b.to_string())).collect(),
+            pool: t.pool.iter().map(|x| x.to_string()).collect(),
+        })
+        .collect();
+    let mut rng = Rng::new(seed ^ 0x7ee5);
+    for i in 0..n_random {
+        all.push(random_tree(&mut rng, i));
+    }
+    let _ = ALL_TREES.set(all);
+}
+
+struct Pipeline {
+    name: &'static str,
+    generator: &'static str,
+    /// rule objects without filters
+    rules: fn() -> Vec<Value>,
+    content: &'static str,
+}
+
+const CONTENT_A: &str = "-- note\ndo end\nlocal a = 1 + 2\nlocal t = {}\nreturn a, _G.VALUE, t['k']\n";
+const CONTENT_B: &str =
+    "do end\nlocal a = 1 + 2\nlocal t = {}\nwhile false do end\nlocal n = nil\nprint('s')\nreturn a, _G.ALPHA, _G.BETA, t['k'], n\n";
+
+const PIPELINES: &[Pipeline] = &[
+    Pipeline {
+        name: "retain-4",
+        generator: "retain_lines",
+        rules: || {
+            vec![
+                json!({"rule": "remove_comments"}),
+                json!({"rule": "remove_empty_do"}),
+                json!({"rule": "compute_expression"}),
+                json!({"rule": "inject_global_value", "identifier": "VALUE", "value": 1}),
+            ]
+        },
+        content: CONTENT_A,
+    },
+    Pipeline {
+        name: "dense-5",
+        generator: "dense",
+        rules: || {
+            vec![
+                json!({"rule": "inject_global_value", "identifier": "ALPHA", "value": "x"}),
+                json!({"rule": "remove_unused_while"}),
+                json!({"rule": "convert_index_to_field"}),
+                json!({"rule": "inject_global_value", "identifier": "BETA", "value": true}),
+                json!({"rule": "remove_function_call_parens"}),
+            ]
+        },
+        content: CONTENT_B,
+    },
+    Pipeline {
+        name: "readable-3",
+        generator: "readable",
+        rules: || {
+            vec![
+                json!({"rule": "remove_nil_declaration"}),
+                json!({"rule": "compute_expression"}),
+                json!({"rule": "remove_empty_do"}),
+            ]
+        },
+        content: CONTENT_B,
+    },
+];
+
+#[derive(Clone, Debug, Serialize, Deserialize, PartialEq, Eq, Hash)]
+pub struct Case {
+    tree: usize,
+    pipeline: usize,
+    in_place: bool,
+    top: (Pats, Pats),
+    rules: Vec<(Pats, Pats)>,
+}
+
+fn file_content(pipeline: &Pipeline, path: &str) -> String {
+    // the path is mentioned in a string so that outputs of different files differ
+    format!("{}local _ = '{}'\n", "", path.replace('\'', "")) + pipeline.content
+}
+
+fn config_value(case: &Case, subset: Option<u32>) -> Value {
+    let pipeline = &PIPELINES[case.pipeline];
+    let base = (pipeline.rules)();
+    let mut rules = Vec::new();
+    for (i, mut rule) in base.into_iter().enumerate() {
+        match subset {
+            Some(mask) => {
+                if mask & (1 << i) == 0 {
+                    continue;
+                }
+            }
+            None => {
+                let (a, s) = &case.rules[i];
+                if let Some(v) = a.json() {
+                    rule["apply_to_files"] = v;
+                }
+                if let Some(v) = s.json() {
+                    rule["skip_files"] = v;
+                }
+            }
+        }
+        // string form when the object carries nothing but the name
+        if rule.as_object().map(|o| o.len()) == Some(1) {
+            rules.push(rule["rule"].clone());
+        } else {
+            rules.push(rule);
+        }
+    }
+    let mut cfg = json!({"generator": pipeline.generator, "rules": rules});
+    if subset.is_none() {
+        if let Some(v) = case.top.0.json() {
+            cfg["apply_to_files"] = v;
+        }
+        if let Some(v) = case.top.1.json() {
+            cfg["skip_files"] = v;
+        }
+    }
+    cfg
+}
+
+/// outputs of the real `process` for every work file: None = no output written
+fn run_real(case: &Case, cfg_text: &str) -> Result<Vec<Option<String>>, String> {
+    let tree = &trees()[case.tree];
+    let pipeline = &PIPELINES[case.pipeline];
+    let in_place = case.in_place;
+    let cfg_text = cfg_text.to_owned();
+    let result = std::panic::catch_unwind(move || -> Result<Vec<Option<String>>, String> {
+        let resources = Resources::from_memory();
+        for f in &tree.files {
+            resources.write(f, &file_content(pipeline, f)).map_err(|e| format!("{:?}", e))?;
+        }
+        let cfg: Configuration = json5::from_str(&cfg_text).map_err(|e| format!("config rejected: {}", e))?;
+        let mut options = Options::new(tree.input.as_str()).with_configuration(cfg);
+        if !in_place {
+            options = options.with_output("out");
+        }
+        let worker_tree = process(&resources, options).map_err(|e| format!("process error: {}", e))?;
+        worker_tree
+            .result()
+            .map_err(|errs| format!("process errors: {}", errs.iter().map(|e| e.to_string()).collect::<Vec<_>>().join("; ")))?;
+        let mut outs = Vec::new();
+        for (source, rel) in &tree.work {
+            let location = if in_place { source.clone() } else { format!("out/{}", rel) };
+            outs.push(resources.get(&location).ok());
+        }
+        // files outside the input, or not Lua, are never touched
+        for f in &tree.files {
+            if !tree.work.iter().any(|(s, _)| s == f) {
+                let now = resources.get(f).map_err(|e| format!("{:?}", e))?;
+                if now != file_content(pipeline, f) {
+                    return Err(format!("file `{}` outside the input was modified", f));
+                }
+            }
+        }
+        Ok(outs)
+    });
+    match result {
+        Ok(r) => r,
+        Err(_) => Err("panic".to_owned()),
+    }
+}
+
+#[derive(Clone, Debug, PartialEq, Eq)]
+enum Decoded {
+    Untouched,
+    Ran(u32),
+    /// in-place with a generator that reproduces the source: untouched and "no rule ran" look the same
+    UntouchedOrNone,
+    Unknown(String),
+}
+
+struct Reference {
+    /// [mask][file] -> output
+    outputs: Vec<Vec<String>>,
+    sources: Vec<String>,
+}
+
+fn build_reference(tree: usize, pipeline: usize, in_place: bool) -> Result<Reference, String> {
+    let k = (PIPELINES[pipeline].rules)().len();
+    let base = Case {
+        tree,
+        pipeline,
+        in_place,
+        top: (Pats::None, Pats::None),
+        rules: vec![(Pats::None, Pats::None); k],
+    };
+    let mut outputs = Vec::new();
+    for mask in 0..(1u32 << k) {
+        let text = config_value(&base, Some(mask)).to_string();
+        let outs = run_real(&base, &text)?;
+        let mut row = Vec::new();
+        for (i, o) in outs.into_iter().enumerate() {
+            row.push(o.ok_or_else(|| format!("reference run mask {} wrote no output for file {}", mask, i))?);
+        }
+        outputs.push(row);
+    }
+    let n_files = trees()[tree].work.len();
+    for f in 0..n_files {
+        let mut seen = BTreeSet::new();
+        for mask in 0..outputs.len() {
+            if !seen.insert(outputs[mask][f].clone()) {
+                return Err(format!(
+                    "probe not discriminating: pipeline {} file {} mask {} repeats an output",
+                    PIPELINES[pipeline].name, f, mask
+                ));
+            }
+        }
+    }
+    let sources = trees()[tree].work.iter().map(|(s, _)| file_content(&PIPELINES[pipeline], s)).collect();
+    Ok(Reference { outputs, sources })
+}
+
+fn decode(reference: &Reference, in_place: bool, file: usize, out: &Option<String>) -> Decoded {
+    match out {
+        None => Decoded::Untouched,
+        Some(text) => {
+            if in_place && *text == reference.sources[file] {
+                if reference.outputs[0][file] == *text {
+                    return Decoded::UntouchedOrNone;
+                }
+                return Decoded::Untouched;
+            }
+            for (mask, row) in reference.outputs.iter().enumerate() {
+                if row[file] == *text {
+                    return Decoded::Ran(mask as u32);
+                }
+            }
+            Decoded::Unknown(text.clone())
+        }
+    }
+}
+
+fn same(decoded: &Decoded, expected: &Decoded) -> bool {
+    match (decoded, expected) {
+        (Decoded::UntouchedOrNone, Decoded::Untouched) | (Decoded::UntouchedOrNone, Decoded::Ran(0)) => true,
+        (a, b) => a == b,
+    }
+}
+
+/// the property statement, evaluated with a given match matrix
+fn statement(case: &Case, patterns: &[String], matrix: &dyn Fn(usize, usize) -> Option<bool>, file: usize) -> Option<Decoded> {
+    let index = |p: &String| patterns.iter().position(|q| q == p).unwrap();
+    let verdict = |apply: &Pats, skip: &Pats| -> Option<bool> {
+        let apply = apply.list();
+        let skip = skip.list();
+        let mut any_apply = apply.is_empty();
+        for p in &apply {
+            if matrix(index(p), file)? {
+                any_apply = true;
+            }
+        }
+        let mut any_skip = false;
+        for p in &skip {
+            if matrix(index(p), file)? {
+                any_skip = true;
+            }
+        }
+        Some(any_apply && !any_skip)
+    };
+    if !verdict(&case.top.0, &case.top.1)? {
+        return Some(Decoded::Untouched);
+    }
+    let mut mask = 0u32;
+    for (i, (a, s)) in case.rules.iter().enumerate() {
+        if verdict(a, s)? {
+            mask |= 1 << i;
+        }
+    }
+    Some(Decoded::Ran(mask))
+}
+
+fn case_patterns(case: &Case) -> Vec<String> {
+    let mut all = Vec::new();
+    let mut push = |p: &Pats| {
+        for s in p.list() {
+            if !all.contains(&s) {
+                all.push(s);
+            }
+        }
+    };
+    push(&case.top.0);
+    push(&case.top.1);
+    for (a, s) in &case.rules {
+        push(a);
+        push(s);
+    }
+    all
+}
+
+fn model_request(case: &Case, patterns: &[String], real_matrix: &[Vec<bool>], n_files: usize) -> String {
+    let idx = |p: &Pats| -> String {
+        p.list()
+            .iter()
+            .map(|s| patterns.iter().position(|q| q == s).unwrap().to_string())
+            .collect::<Vec<_>>()
+            .join(" ")
+    };
+    let rows: Vec<String> = real_matrix
+        .iter()
+        .map(|r| r.iter().map(|b| if *b { '1' } else { '0' }).collect::<String>())
+        .collect();
+    let rules: Vec<String> = case.rules.iter().map(|(a, s)| format!("(({}) ({}))", idx(a), idx(s))).collect();
+    format!(
+        "c20.decide (cfg (m {}) (apply {}) (skip {}) (rules {}) (paths {}))",
+        rows.join(" "),
+        idx(&case.top.0),
+        idx(&case.top.1),
+        rules.join(" "),
+        n_files
+    )
+}
+
+fn parse_model_answer(answer: &str, n_files: usize) -> Option<Vec<Decoded>> {
+    let parts: Vec<&str> = answer.split(';').collect();
+    if parts.len() != n_files {
+        return None;
+    }
+    parts
+        .iter()
+        .map(|p| {
+            let mut words = p.split(' ');
+            match words.next()? {
+                "untouched" => Some(Decoded::Untouched),
+                "written" => {
+                    let mut mask = 0u32;
+                    for w in words {
+                        mask |= 1 << w.parse::<u32>().ok()?;
+                    }
+                    Some(Decoded::Ran(mask))
+                }
+                _ => None,
+            }
+        })
+        .collect()
+}
+
+#[derive(Default)]
+struct CaseOutcome {
+    violations: Vec<Violation>,
+    nontrivial: bool,
+    oracle_judged: bool,
+    hist: Vec<(String, String)>,
+    sample: Option<Value>,
+}
+
+type References = BTreeMap<(usize, usize, bool), Reference>;
+
+type SpecCache = std::collections::HashMap<(usize, String), String>;
+
+fn check_case(case: &Case, model: &mut Model, references: &References, spec_cache: &mut SpecCache) -> CaseOutcome {
+    let mut outcome = CaseOutcome::default();
+    let tree = &trees()[case.tree];
+    let n_files = tree.work.len();
+    let cfg_text = config_value(case, None).to_string();
+    let case_json = json!({"kind": "process", "case": case, "config": cfg_text, "tree": tree.name,
+        "input": tree.input, "files": tree.files, "pipeline": PIPELINES[case.pipeline].name,
+        "seed": SEED.load(std::sync::atomic::Ordering::Relaxed), "random_trees": trees().len() - STATIC_TREES.len()});
+    let patterns = case_patterns(case);
+    // real matcher (rows cached per (tree, pattern): every call of the hook compiles the pattern)
+    let mut real_matrix: Vec<Vec<bool>> = Vec::new();
+    let mut invalid = None;
+    for p in &patterns {
+        let key = (case.tree, format!("real:{}", p));
+        if !spec_cache.contains_key(&key) {
+            let mut row = String::new();
+            for (source, _) in &tree.work {
+                row.push(match real_match(p, source) {
+                    Ok(true) => '1',
+                    Ok(false) => '0',
+                    Err(_) => 'E',
+                });
+            }
+            spec_cache.insert(key.clone(), row);
+        }
+        let row = &spec_cache[&key];
+        if row.contains('E') {
+            invalid = Some((p.clone(), "invalid pattern".to_owned()));
+        }
+        real_matrix.push(row.chars().map(|c| c == '1').collect());
+    }
+    let real = run_real(case, &cfg_text);
+    if let Some((p, _)) = invalid {
+        // an invalid pattern must make the configuration unreadable, never be ignored
+        outcome.hist.push(("case-kind".into(), "invalid-pattern".into()));
+        if !matches!(&real, Err(e) if e.starts_with("config rejected")) {
+            outcome.violations.push(Violation {
+                kind: "oracle".into(),
+                check: "invalid-pattern-rejected".into(),
+                what: format!("pattern `{}` is invalid but the configuration was accepted: {:?}", p, real.map(|_| ())),
+                input: case_json,
+                failing_input_found: true,
+            });
+        }
+        return outcome;
+    }
+    let real = match real {
+        Ok(r) => r,
+        Err(e) => {
+            outcome.violations.push(Violation {
+                kind: "oracle".into(),
+                check: "process-succeeds".into(),
+                what: format!("valid filters, yet processing failed: {}", e),
+                input: case_json,
+                failing_input_found: true,
+            });
+            return outcome;
+        }
+    };
+    let reference = &references[&(case.tree, case.pipeline, case.in_place)];
+    let decoded: Vec<Decoded> = (0..n_files).map(|f| decode(reference, case.in_place, f, &real[f])).collect();
+    // --- model (theorem defs) with the real match matrix
+    let answer = model.ask(&model_request(case, &patterns, &real_matrix, n_files));
+    let predicted = parse_model_answer(&answer, n_files);
+    // --- oracle: the statement with the reference matcher
+    // reference matcher rows, cached per (tree, pattern)
+    let missing: Vec<&String> = patterns.iter().filter(|p| !spec_cache.contains_key(&(case.tree, (*p).clone()))).collect();
+    if !missing.is_empty() {
+        let paths: Vec<String> = tree.work.iter().map(|(s, _)| hex(s.as_bytes())).collect();
+        let reqs: Vec<String> =
+            missing.iter().map(|p| format!("c20.globrow {} {}", hex(p.as_bytes()), paths.join(" "))).collect();
+        let answers = model.ask_batch(&reqs);
+        for (p, a) in missing.iter().zip(answers) {
+            spec_cache.insert((case.tree, (*p).clone()), a);
+        }
+    }
+    let spec_rows: Vec<String> = patterns.iter().map(|p| spec_cache[&(case.tree, p.clone())].clone()).collect();
+    let spec = |p: usize, f: usize| -> Option<bool> {
+        match spec_rows[p].as_bytes().get(f) {
+            Some(b'1') if spec_rows[p].len() == n_files => Some(true),
+            Some(b'0') if spec_rows[p].len() == n_files => Some(false),
+            _ => None,
+        }
+    };
+    let mut oracle_failures = Vec::new();
+    let mut judged_all = true;
+    let mut yes = 0;
+    let mut no = 0;
+    for f in 0..n_files {
+        match statement(case, &patterns, &spec, f) {
+            Some(expected) => {
+                match &expected {
+                    Decoded::Untouched => no += 1,
+                    Decoded::Ran(m) => {
+                        let k = case.rules.len() as u32;
+                        if *m == (1 << k) - 1 {
+                            yes += 1
+                        } else {
+                            no += 1;
+                            yes += 1
+                        }
+                    }
+                    _ => {}
+                }
+                if !same(&decoded[f], &expected) {
+                    oracle_failures.push(format!(
+                        "file `{}`: the statement gives {:?}, the real run did {:?}",
+                        tree.work[f].0, expected, decoded[f]
+                    ));
+                }
+            }
+            None => judged_all = false,
+        }
+    }
+    outcome.oracle_judged = judged_all;
+    outcome.nontrivial = yes > 0 && no > 0;
+    if !oracle_failures.is_empty() {
+        outcome.violations.push(Violation {
+            kind: "oracle".into(),
+            check: "filtered-run-equals-reduced-pipeline".into(),
+            what: oracle_failures.join(" | "),
+            input: case_json.clone(),
+            failing_input_found: true,
+        });
+    }
+    // --- correspondence
+    let corr_ok = match &predicted {
+        Some(pred) => (0..n_files).all(|f| same(&decoded[f], &pred[f])),
+        None => false,
+    };
+    if !corr_ok && oracle_failures.is_empty() {
+        // the model and the code differ although the statement (where judged) holds on this input
+        outcome.violations.push(Violation {
+            kind: "correspondence".into(),
+            check: "model-decide".into(),
+            what: format!("model answered `{}`, real run decoded as {:?}", answer, decoded),
+            input: case_json.clone(),
+            failing_input_found: false,
+        });
+    }
+    if decoded.iter().any(|d| matches!(d, Decoded::Unknown(_))) && oracle_failures.is_empty() && corr_ok {
+        outcome.violations.push(Violation {
+            kind: "oracle".into(),
+            check: "output-is-some-sub-pipeline".into(),
+            what: format!("an output equals no unfiltered sub-pipeline: {:?}", decoded),
+            input: case_json.clone(),
+            failing_input_found: true,
+        });
+    }
+    let sites = (if case.top != (Pats::None, Pats::None) { 1 } else { 0 })
+        + case.rules.iter().filter(|r| **r != (Pats::None, Pats::None)).count();
+    outcome.hist.push(("filter-sites".into(), sites.to_string()));
+    outcome.hist.push(("top-apply-form".into(), case.top.0.form().into()));
+    outcome.hist.push(("top-skip-form".into(), case.top.1.form().into()));
+    for (a, s) in &case.rules {
+        outcome.hist.push(("rule-apply-form".into(), a.form().into()));
+        outcome.hist.push(("rule-skip-form".into(), s.form().into()));
+    }
+    outcome.hist.push(("tree".into(), if tree.name.starts_with("random") { "random".into() } else { tree.name.clone() }));
+    outcome.hist.push(("pipeline".into(), PIPELINES[case.pipeline].name.into()));
+    outcome.hist.push(("mode".into(), if case.in_place { "in-place" } else { "output-dir" }.into()));
+    outcome.hist.push((
+        "verdicts".into(),
+        match (yes > 0, no > 0) {
+            (true, true) => "mixed",
+            (true, false) => "all-yes",
+            (false, true) => "all-no",
+            _ => "not-judged",
+        }
+        .into(),
+    ));
+    outcome.sample = Some(json!({"config": cfg_text, "tree": tree.name, "decoded": format!("{:?}", decoded)}));
+    outcome
+}
+
+fn pattern_lists(pool: &[String], rich: bool) -> Vec<Pats> {
+    let mut lists = vec![Pats::None, Pats::Many(vec![])];
+    for (i, p) in pool.iter().enumerate() {
+        if i % 2 == 0 {
+            lists.push(Pats::One((*p).to_owned()));
+        } else {
+            lists.push(Pats::Many(vec![(*p).to_owned()]));
+        }
+        if rich {
+            if i % 2 == 0 {
+                lists.push(Pats::Many(vec![(*p).to_owned()]));
+            } else {
+                lists.push(Pats::One((*p).to_owned()));
+            }
+        }
+    }
+    for i in 0..pool.len() {
+        let j = (i * 7 + 3) % pool.len();
+        if i != j {
+            lists.push(Pats::Many(vec![pool[i].to_owned(), pool[j].to_owned()]));
+        }
+        if rich {
+            let l = (i * 5 + 1) % pool.len();
+            lists.push(Pats::Many(vec![pool[i].to_owned(), pool[j].to_owned(), pool[l].to_owned()]));
+        }
+    }
+    lists
+}
+
+fn random_pats(rng: &mut Rng, pool: &[String]) -> Pats {
+    match rng.below(10) {
+        0..=3 => Pats::None,
+        4 => Pats::Many(vec![]),
+        5 | 6 => Pats::One((*rng.pick(pool)).to_owned()),
+        7 => Pats::Many(vec![(*rng.pick(pool)).to_owned()]),
+        _ => {
+            let n = 2 + rng.below(3);
+            Pats::Many((0..n).map(|_| (*rng.pick(pool)).to_owned()).collect())
+        }
+    }
+}
+
+fn generate_cases(report: &Report) -> Vec<Case> {
+    let thorough = report.is_thorough();
+    let mut cases = Vec::new();
+    let mut rng = Rng::new(report.seed);
+    for (ti, tree) in trees().iter().enumerate() {
+        for (pi, pipeline) in PIPELINES.iter().enumerate() {
+            let k = (pipeline.rules)().len();
+            let lists = pattern_lists(&tree.pool, thorough);
+            for in_place in [false, true] {
+                // in-place runs repeat the sweep on a thinner list in the quick tier
+                let step = if in_place && !thorough { 3 } else { 1 };
+                // single-site sweep: every site x apply list x skip list
+                for site in 0..=k {
+                    for (ai, a) in lists.iter().enumerate() {
+                        for (si, s) in lists.iter().enumerate() {
+                            if (ai + si) % step != 0 {
+                                continue;
+                            }
+                            if !thorough && ti != 0 && (ai * 31 + si * 17 + site) % 4 != 0 {
+                                continue;
+                            }
+                            // seeded random trees: a thin slice of the sweep, they mostly serve the random part
+                            if ti >= STATIC_TREES.len() && (ai * 31 + si * 17 + site) % (if thorough { 16 } else { 40 }) != 0 {
+                                continue;
+                            }
+                            let mut case = Case {
+                                tree: ti,
+                                pipeline: pi,
+                                in_place,
+                                top: (Pats::None, Pats::None),
+                                rules: vec![(Pats::None, Pats::None); k],
+                            };
+                            if site == 0 {
+                                case.top = (a.clone(), s.clone());
+                            } else {
+                                case.rules[site - 1] = (a.clone(), s.clone());
+                            }
+                            cases.push(case);
+                        }
+                    }
+                }
+                // random multi-site
+                let n = if thorough { 2500 } else { 500 };
+                for _ in 0..n {
+                    let mut case = Case {
+                        tree: ti,
+                        pipeline: pi,
+                        in_place,
+                        top: (Pats::None, Pats::None),
+                        rules: Vec::new(),
+                    };
+                    if rng.chance(1, 2) {
+                        case.top = (random_pats(&mut rng, &tree.pool), random_pats(&mut rng, &tree.pool));
+                    }
+                    for _ in 0..k {
+                        case.rules.push(if rng.chance(2, 3) {
+                            (random_pats(&mut rng, &tree.pool), random_pats(&mut rng, &tree.pool))
+                        } else {
+                            (Pats::None, Pats::None)
+                        });
+                    }
+                    cases.push(case);
+                }
+            }
+        }
+    }
+    // malformed stream: invalid patterns must reject the configuration
+    for bad in ["a**", "**/**", "src/[", "{a", "a//b", "***"] {
+        for site in 0..=2usize {
+            let mut case = Case {
+                tree: 0,
+                pipeline: 0,
+                in_place: false,
+                top: (Pats::None, Pats::None),
+                rules: vec![(Pats::None, Pats::None); 4],
+            };
+            let pats = if site % 2 == 0 { Pats::One(bad.to_owned()) } else { Pats::Many(vec!["**".into(), bad.to_owned()]) };
+            if site == 0 {
+                case.top.1 = pats;
+            } else {
+                case.rules[site].0 = pats;
+            }
+            cases.push(case);
+        }
+    }
+    cases
+}
+
+fn part_b(report: &mut Report, only: Option<Vec<Case>>) {
+    let mut references: References = BTreeMap::new();
+    for ti in 0..trees().len() {
+        for pi in 0..PIPELINES.len() {
+            for in_place in [false, true] {
+                match build_reference(ti, pi, in_place) {
+                    Ok(r) => {
+                        references.insert((ti, pi, in_place), r);
+                    }
+                    Err(e) => {
+                        report.violation(Violation {
+                            kind: "oracle".into(),
+                            check: "reference-runs".into(),
+                            what: format!("cannot build the unfiltered reference outputs: {}", e),
+                            input: json!({"kind": "reference", "tree": trees()[ti].name, "pipeline": PIPELINES[pi].name, "in_place": in_place}),
+                            failing_input_found: true,
+                        });
+                        return;
+                    }
+                }
+            }
+        }
+    }
+    report.count("reference_runs", references.values().map(|r| r.outputs.len() as u64).sum());
+    let exhaustive_sweep = only.is_none();
+    let cases = only.unwrap_or_else(|| generate_cases(report));
+    let n_threads = 16usize;
+    let chunk = ((cases.len() + n_threads - 1) / n_threads).max(1);
+    let references = &references;
+    let results: Vec<Vec<(Case, CaseOutcome)>> = std::thread::scope(|s| {
+        let handles: Vec<_> = cases
+            .chunks(chunk)
+            .map(|c| {
+                s.spawn(move || {
+                    let mut model = Model::spawn();
+                    let mut spec_cache = SpecCache::new();
+                    c.iter().map(|case| (case.clone(), check_case(case, &mut model, references, &mut spec_cache))).collect::<Vec<_>>()
+                })
+            })
+            .collect();
+        handles.into_iter().map(|h| h.join().expect("case thread")).collect()
+    });
+    let mut n_samples = 0;
+    for (case, outcome) in results.into_iter().flatten() {
+        report.case(if outcome.nontrivial { Some(&case) } else { None });
+        for (h, b) in &outcome.hist {
+            report.hist(h, b);
+        }
+        if outcome.oracle_judged {
+            report.count("cases_judged_by_oracle", 1);
+        } else {
+            report.count("cases_correspondence_only", 1);
+        }
+        if outcome.nontrivial && n_samples < 6 {
+            if let Some(s) = outcome.sample {
+                report.sample(s);
+                n_samples += 1;
+            }
+        }
+        for v in outcome.violations {
+            report.violation(v);
+        }
+    }
+    if exhaustive_sweep {
+        report.exhaustive.insert(
+            "single-site sweep on tree `root`, output-dir mode: every filter site (top level, each rule of each pipeline) x every apply list x every skip list of the tree's pattern lists (other trees / in-place mode: thinned in the quick tier, full in the thorough tier)".into(),
+            true,
+        );
+    }
+}
+
+static SEED: std::sync::atomic::AtomicU64 = std::sync::atomic::AtomicU64::new(0);
+
+pub fn run(report: &mut Report, replay: Option<&str>) {
+    report.rule = "Part A compares the real FilterPattern with the Lean reference glob on an exhaustive pattern x path grid \
+        (every pair counts as an evaluation). Part B runs the real process() on memory trees with filters at one site \
+        (exhaustive sweep over site x apply list x skip list) and at several sites (seeded random), on three fixed trees \
+        (inputs '', './src/../src/', a single file) and on seeded random trees with pattern pools derived from their paths; a case is non-trivial \
+        when, by the reference matcher, at least one (file, site) verdict is yes and at least one is no, i.e. the filters \
+        really discriminate; distinct = distinct (tree, pipeline, mode, filters)."
+        .to_owned();
+    let mut tree_seed = report.seed;
+    let mut n_random = if report.is_thorough() { 8 } else { 4 };
+    if let Some(path) = replay {
+        let text = std::fs::read_to_string(path).unwrap_or_default();
+        let v: Value = serde_json::from_str(&text).unwrap_or(Value::Null);
+        let input = if v.get("input").is_some() { v["input"].clone() } else { v.clone() };
+        if let (Some(sd), Some(n)) = (input["seed"].as_u64(), input["random_trees"].as_u64()) {
+            tree_seed = sd;
+            n_random = n as usize;
+        }
+    }
+    SEED.store(tree_seed, std::sync::atomic::Ordering::Relaxed);
+    init_trees(tree_seed, n_random);
+    report.count("random_trees", n_random as u64);
+    if let Some(path) = replay {
+        let text = std::fs::read_to_string(path).unwrap_or_default();
+        let v: Value = serde_json::from_str(&text).unwrap_or(Value::Null);
+        let input = if v.get("input").is_some() { v["input"].clone() } else { v.clone() };
+        match input["kind"].as_str() {
+            Some("process") => {
+                if let Ok(case) = serde_json::from_value::<Case>(input["case"].clone()) {
+                    part_b(report, Some(vec![case]));
+                    return;
+                }
+            }
+            Some("glob") => {
+                let pattern = input["pattern"].as_str().unwrap_or("").to_owned();
+                let path = input["path"].as_str().unwrap_or("a").to_owned();
+                let st = glob_chunk(&[pattern], &[path]);
+                report.evaluations += st.compared;
+                for m in st.mismatches {
+                    report.violation(Violation {
+                        kind: "oracle".into(),
+                        check: "glob-matrix".into(),
+                        what: format!("FilterPattern `{}` on {:?}: real {} / documented {}", m.pattern, m.path, m.real, m.spec),
+                        input: input.clone(),
+                        failing_input_found: true,
+                    });
+                }
+                return;
+            }
+            _ => {}
+        }
+        report.notes.push("replay file not understood; running the full check".into());
+    }
+    // corpus first
+    let corpus_dir = concat!(env!("CARGO_MANIFEST_DIR"), "/../corpus/C20");
+    if let Ok(entries) = std::fs::read_dir(corpus_dir) {
+        let mut cases = Vec::new();
+        for e in entries.flatten() {
+            if let Ok(text) = std::fs::read_to_string(e.path()) {
+                if let Ok(v) = serde_json::from_str::<Value>(&text) {
+                    if let Ok(case) = serde_json::from_value::<Case>(v["case"].clone()) {
+                        cases.push(case);
+                    }
+                }
+            }
+        }
+        if !cases.is_empty() {
+            report.count("corpus_cases", cases.len() as u64);
+            part_b(report, Some(cases));
+        }
+    }
+    part_a(report);
+    part_b(report, None);
 }
